@@ -458,6 +458,12 @@ class StreamResponse(
         if self._payload_writer is None:
             raise RuntimeError("Cannot call write() before prepare()")
 
+        if self._must_be_empty_body:
+            # HEAD, 1xx, 204 and 304 responses carry no body and were framed
+            # without one: bytes written now would be taken for the next
+            # response on the connection.
+            return
+
         await self._payload_writer.write(data)
 
     async def drain(self) -> None:
@@ -480,6 +486,8 @@ class StreamResponse(
 
         assert self._payload_writer is not None, "Response has not been started"
 
+        if self._must_be_empty_body:
+            data = b""
         await self._payload_writer.write_eof(data)
         self._eof_sent = True
         self._req = None
